@@ -55,6 +55,9 @@ MUTANTS = [
     ("foreign flag value", "AegeanTools/source_finder.py",
      "                src_flags |= flags.WCSERR\n",
      "                src_flags |= 128\n", "C03-R3"),
+    ("flag added arithmetically", "AegeanTools/source_finder.py",
+     "                ns.flags |= flags.PRIORIZED\n",
+     "                ns.flags += flags.PRIORIZED\n", "C03-R3"),
     ("pa_limit before fix_shape", "AegeanTools/source_finder.py",
      "            fix_shape(source)\n            # limit the pa to be in "
      "(-90,90]\n            source.pa = pa_limit(source.pa)\n",
@@ -315,8 +318,12 @@ def r3(ctx, prog):
         flagvars = {"is_flag", "src_flags", "summit_flag", "flag", "isflags"}
         for s in walk_no_nested(fi.node):
             tgt = val = None
-            if isinstance(s, ast.AugAssign) and isinstance(s.op, ast.BitOr):
+            badop = None
+            if isinstance(s, ast.AugAssign) and isinstance(
+                    s.op, (ast.BitOr, ast.BitAnd)):
                 tgt, val = s.target, s.value
+            elif isinstance(s, ast.AugAssign):
+                tgt, val, badop = s.target, s.value, type(s.op).__name__
             elif isinstance(s, ast.Assign):
                 tgt, val = s.targets[0], s.value
             if tgt is None:
@@ -329,6 +336,13 @@ def r3(ctx, prog):
             if not isflag:
                 continue
             n += 1
+            if badop:
+                ctx.check("C03-R3", fi, "flag update " + norm(s, 70), False,
+                          "flags are combined arithmetically (%s): when the "
+                          "bit is already set the carry produces an "
+                          "undocumented bit and clears the intended one" %
+                          badop, node=s)
+                continue
             ok = _flag_expr(val, flagvars)
             ctx.check("C03-R3", fi, "flag value " + norm(s, 70), ok,
                       "a value outside the documented flag bits can reach a "
